@@ -13,7 +13,7 @@ def run(R):
     R.notes.append("gen_tables: " + r.stdout.strip())
     if not R.build():
         return
-    R.lean(["C19"])
+    R.lean(["C19", "C19Main"])
     import hunted
     hunted.run(R, "C19")
     quick = R.tier == "quick"
